@@ -363,7 +363,7 @@ def showcase(r, k=None):
     return "[a][r1] and [R1] and [b][nope] ![i][r1]\n\n[r1]: /u%s \"T\"\n" % r.choice(["", "?a=b&c", "%20x"])
 
 
-INCLUDE_TARGETS = ["data.txt", "part.md", "frag.html", "latin1.txt", "empty.txt", "bom.md", "utf16.txt", "sub/inner.md", "missing.txt", "main.md", "", ".", "sub",
+INCLUDE_TARGETS = ["chain_f_000.md", "chain_r_000.md", "chain_m_000.md", "data.txt", "part.md", "frag.html", "latin1.txt", "empty.txt", "bom.md", "utf16.txt", "sub/inner.md", "missing.txt", "main.md", "", ".", "sub",
                    "deep.md", "deep.md", "crlf.md", "cr.md", "cyc_a.md", "cyc_b.md",
                    "./data.txt", "sub/../data.txt", "data.txt  ", "<x9>.txt"]
 INCLUDE_ENCODINGS = ["utf-8", "utf-8", "latin-1", "ascii", "utf-16", "utf-8-sig", "nope", "", "<x9 y9=1>", "\"onx9=1", "idna", "hex", "unicode_escape"]
